@@ -7,6 +7,8 @@ for d in seeded/*/; do
   id=$(basename $d)
   [ -f $d/patch.diff ] || continue
   prop=$(python3 -c "import json;print(json.load(open('$d/meta.json'))['property'])" 2>/dev/null || echo ${id%%-*})
+  st=$(python3 -c "import json;print(json.load(open('$d/meta.json')).get('status',''))" 2>/dev/null)
+  if [ "$st" = "neutralised" ]; then echo "$id $prop neutralised-by-fix (skipped)"; continue; fi
   if ! git -C /repo apply --check $PWD/$d/patch.diff 2>/dev/null; then echo "$id $prop patch-does-not-apply"; continue; fi
   git -C /repo apply $PWD/$d/patch.diff
   out=$(./pzv check $prop 2>&1)
